@@ -1228,4 +1228,170 @@ theorem transform_dictsOk (c2 : C2Data) (allowed : Field → Bool) (p : Program)
         simp only [C04.tstep, Except.bind] at h
         exact ih hv2 hrest _ s' (dictsOk_setParam hs k v hvne) h
 
+/-! ### the wire form of what the client transforms produce: requests -/
+
+/-- a verb that survives the request line: one token, not starting with `HTTP/` in any case -/
+def verbOk (v : Bytes) : Bool := C16.isToken v && !C16.startsWithHTTP v
+
+/-- The configuration-level hypotheses under which every request of the client meets C16's round-trip hypotheses:
+token verbs, clean absolute paths, printable placements (`progWireOk`), the get program only carries the metadata and
+the post program only id and output. -/
+structure WireCfg (cfg : HttpCfg) (pg pp : Program) : Prop where
+  getVerb : verbOk cfg.getVerb = true
+  submitVerb : verbOk cfg.submitVerb = true
+  getUris : ∀ u ∈ cfg.getUris, C16.wellFormedPath u = true
+  submitUri : C16.wellFormedPath cfg.submitUri = true
+  getItems : progWireOk (fun f => f == .metadata) pg = true
+  postItems : progWireOk (fun f => f == .id || f == .output) pp = true
+
+/-- User-Agent and Host values of the client are CR-free -/
+structure WireClient (cl : Client) : Prop where
+  ua : C16.noCR cl.userAgent = true
+  host : C16.noCR cl.hostHeader = true
+
+theorem initialHeaders_ok (cl : Client) (w : WireClient cl) : DictsOk [] (initialHeaders cl) := by
+  refine ⟨by simp, by simp, by simp [initialHeaders, hUserAgent, hHost], ?_⟩
+  intro h hh
+  simp only [initialHeaders, List.mem_cons, List.not_mem_nil, or_false] at hh
+  rcases hh with rfl | rfl
+  · simp only [C16.wellFormedHeader, w.ua, Bool.and_true]; decide
+  · simp only [C16.wellFormedHeader, w.host, Bool.and_true]; decide
+
+theorem client_transform_wireOk (p : Program) (hv : valid p = true) (allowed : Field → Bool)
+    (hw : progWireOk allowed p = true) (c2 : C2Data) (hpay : ∀ f, allowed f = true → C04.payload c2 f ≠ [])
+    (rand : C04.Rand) (req r : Req) (hreq : DictsOk req.params req.headers) (hverb : verbOk req.method = true)
+    (hpath : C16.wellFormedPath req.uri = true)
+    (hr : C04.transform (C04.mkTransform (compile p) false none) rand c2 (some req) = .ok r)
+    (hm : r.method = req.method) (hu : r.uri = req.uri) : MsgWireOk (.request r) := by
+  simp only [C04.transform, C04.mk_client, Option.getD_some] at hr
+  cases hrun : C04.runT c2 (compile p) (C04.TSt.init req rand) with
+  | error e => rw [hrun] at hr; cases hr
+  | ok s' =>
+    rw [hrun] at hr
+    simp only [Except.map, Except.ok.injEq] at hr
+    have hd := transform_dictsOk c2 allowed p hv hw hpay _ s' hreq hrun
+    have hp : r.params = s'.params := by rw [← hr]; rfl
+    have hh : r.headers = s'.headers := by rw [← hr]; rfl
+    simp only [verbOk, Bool.and_eq_true, Bool.not_eq_true'] at hverb
+    show C16.WellFormedReq httpVersion r.method r.uri r.params r.headers
+    rw [hm, hu, hp, hh]
+    exact ⟨by decide, hverb.1, hverb.2, hpath, hd.pk, hd.pv, ⟨hd.hv, hd.hk⟩⟩
+
+theorem getTaskRequest_wireOk (c : Crypto) (L : CryptoLaws c) {cfg : HttpCfg} {pg pp : Program} {es : List Enc}
+    (wf : WellFormedCfg cfg pg pp es) (wcfg : WireCfg cfg pg pp) (cl : Client) (hcl : cl.cfg = cfg)
+    (wc : WellFormedClient c cl) (wcl : WireClient cl) (rr : C06.Rand) (rand : C04.Rand) (r : Req) (cl' : Client)
+    (h : getTaskRequest c cl rr rand = .ok (r, cl')) : MsgWireOk (.request r) := by
+  obtain ⟨blob, hb1, hb2, _⟩ := C06.metadata_roundtrip c.asym L.asym cl.metadata rr wc.inWidth wc.aesLen wc.fits wc.infoSmall
+  have hne : blob ≠ [] := by
+    intro h0; rw [h0] at hb2; simp at hb2; have := wc.fits; omega
+  obtain ⟨r1, hr1, hr2, hr3, _⟩ := client_transform_recover pg wf.getValid wf.getNoUri ⟨none, some blob, none⟩ rand
+    (initialGetRequest cl)
+  simp only [getTaskRequest, sized_eq cl wc.inWidth wc.aesLen, hb1, ofC06, transformGet, hcl, wf.getProg, hr1, ofC04,
+    Except.map, Except.ok.injEq, Prod.mk.injEq] at h
+  obtain ⟨rfl, _⟩ := h
+  refine client_transform_wireOk pg wf.getValid _ wcfg.getItems _ ?_ rand (initialGetRequest cl) r1
+    (initialHeaders_ok cl wcl) (by simpa [initialGetRequest, hcl] using wcfg.getVerb)
+    (wcfg.getUris _ (by rw [← hcl]; exact wc.getUri)) hr1 hr2 hr3
+  intro f hf
+  have : f = .metadata := by simpa using hf
+  subst this
+  exact hne
+
+theorem iterClient_nil : C05.iterClient (some []) = ([], none) := by
+  simp only [C05.iterClient, C05.iterClientPackets_nil]
+
+theorem callbackRequest_wireOk (c : Crypto) (L : CryptoLaws c) {cfg : HttpCfg} {pg pp : Program} {es : List Enc}
+    (wf : WellFormedCfg cfg pg pp es) (wcfg : WireCfg cfg pg pp) (cl : Client) (hcl : cl.cfg = cfg)
+    (wc : WellFormedClient c cl) (wcl : WireClient cl) (cbs : List (Nat × Bytes)) (rand : C04.Rand)
+    (hne : cbs ≠ []) (hc : cl.counter + cbs.length < 2 ^ 32) (hcb : ∀ cb ∈ cbs, cb.1 < 2 ^ 32 ∧ cb.2.length + 64 < 2 ^ 32)
+    (r : Req) (cl' : Client) (h : callbackRequest c cl cbs rand = .ok (r, cl')) : MsgWireOk (.request r) := by
+  obtain ⟨k, hk, hkeys, hk16, hhk16⟩ := sessionKeys_facts c L cl
+  have hkne : hk ≠ [] := by intro h0; rw [h0] at hhk16; cases hhk16
+  obtain ⟨pkts, bs, h1, h2, h3, h4, _, _⟩ := encryptCallbacks_spec c L k hk hk16 hkne true
+    (callbackPackets cl.counter cbs) (callbackPackets_ok cl.counter cbs hc hcb)
+  obtain ⟨bs', hb1, hb2⟩ := C05.client_frames_roundtrip pkts h4
+  rw [h2] at hb1
+  injection hb1 with hb1
+  subst hb1
+  have hbs : bs ≠ [] := by
+    intro h0
+    rw [h0, iterClient_nil] at hb2
+    injection hb2 with hb2 _
+    rw [← hb2, callbackPackets_length] at h3
+    cases cbs with
+    | nil => exact hne rfl
+    | cons _ _ => simp at h3
+  obtain ⟨r1, hr1, hr2, hr3, _⟩ := client_transform_recover pp wf.postValid wf.postNoUri
+    ⟨some bs, none, some (idBytes cl)⟩ rand (initialPostRequest cl)
+  simp only [callbackRequest, wc.keys, hkeys, h1, transformSubmit, hcl, wf.postProg, hr1, ofC04, Except.map,
+    Except.ok.injEq, Prod.mk.injEq] at h
+  obtain ⟨rfl, _⟩ := h
+  refine client_transform_wireOk pp wf.postValid _ wcfg.postItems _ ?_ rand (initialPostRequest cl) r1
+    (initialHeaders_ok cl wcl) (by simpa [initialPostRequest, hcl] using wcfg.submitVerb)
+    (by simpa [initialPostRequest, hcl] using wcfg.submitUri) hr1 hr2 hr3
+  intro f hf
+  simp only [Bool.or_eq_true, beq_iff_eq] at hf
+  rcases hf with rfl | rfl
+  · exact C16.natDigits_ne_nil _
+  · exact hbs
+
+theorem emitAll_cons_inv (c : Crypto) (s s' : Sender) (ev : Event) (evs : List Event) (h : Http) (sent : List Item)
+    (msgs : List (Http × List Item)) (h1 : emit c s ev = .ok (h, s', sent)) (h2 : emitAll c s (ev :: evs) = .ok msgs) :
+    ∃ msgs', emitAll c s' evs = .ok msgs' ∧ msgs = (h, sent) :: msgs' := by
+  simp only [emitAll, h1] at h2
+  cases hr : emitAll c s' evs with
+  | error e => rw [hr] at h2; cases h2
+  | ok msgs' =>
+    rw [hr] at h2
+    simp only [Except.map, Except.ok.injEq] at h2
+    exact ⟨msgs', rfl, h2.symm⟩
+
+/-- every message of a session over a wire-safe configuration meets C16's round-trip hypotheses -/
+theorem emitAll_wireOk (c : Crypto) (L : CryptoLaws c) {cfg : HttpCfg} {pg pp : Program} {es : List Enc}
+    (wf : WellFormedCfg cfg pg pp es) (wcfg : WireCfg cfg pg pp) (hs : Dict) (hhs : C16.WellFormedHeaders hs) :
+    ∀ (evs : List Event) (cl : Client), cl.cfg = cfg → WellFormedClient c cl → WireClient cl →
+      EventsOk cl.counter evs → (∀ cbs rand, Event.callbacks cbs rand ∈ evs → cbs ≠ []) →
+      ∀ msgs, emitAll c ⟨cl, es, hs⟩ evs = .ok msgs → ∀ m ∈ msgs, MsgWireOk m.1 := by
+  intro evs
+  induction evs with
+  | nil =>
+    intro cl _ _ _ _ _ msgs h m hm
+    simp only [emitAll, Except.ok.injEq] at h
+    subst h
+    cases hm
+  | cons ev evs ih =>
+    intro cl hcl wc wcl hok hne msgs h m hm
+    obtain ⟨hev, hrest⟩ := hok
+    have hne' : ∀ cbs rand, Event.callbacks cbs rand ∈ evs → cbs ≠ [] := fun cbs rand hm' => hne cbs rand (by simp [hm'])
+    cases ev with
+    | checkin rr rand =>
+      obtain ⟨r, blob, h1, _⟩ := checkin_request c L wf cl hcl wc rr rand
+      have he : emit c ⟨cl, es, hs⟩ (.checkin rr rand) =
+          .ok (.request r, ⟨{ cl with metadata := sentMetadata cl }, es, hs⟩, [.metadata (sentMetadata cl)]) := by
+        simp only [emit, h1, Except.map]
+      obtain ⟨msgs', m1, rfl⟩ := emitAll_cons_inv c _ _ _ evs _ _ msgs he h
+      rcases List.mem_cons.1 hm with rfl | hm
+      · exact getTaskRequest_wireOk c L wf wcfg cl hcl wc wcl rr rand r _ h1
+      · exact ih { cl with metadata := sentMetadata cl } hcl (wellFormedClient_sent c cl wc) ⟨wcl.ua, wcl.host⟩ hrest hne'
+          msgs' m1 m hm
+    | task t rand =>
+      obtain ⟨dec0, _, inv0, _⟩ := mkDecoder_rsa c cl true
+      obtain ⟨body, he, _⟩ := emit_task c L wf hs cl hcl wc dec0 false inv0 t rand (fun t' ht' => by subst ht'; exact hev)
+      obtain ⟨msgs', m1, hmsgs⟩ := emitAll_cons_inv c _ _ _ evs _ _ msgs he h
+      rw [hmsgs] at hm
+      rcases List.mem_cons.1 hm with rfl | hm
+      · exact hhs
+      · exact ih cl hcl wc wcl hrest hne' msgs' m1 m hm
+    | callbacks cbs rand =>
+      obtain ⟨r, out, pkts, h1, _⟩ := callback_request c L wf cl hcl wc cbs rand true hev.1 hev.2
+      have he : emit c ⟨cl, es, hs⟩ (.callbacks cbs rand) =
+          .ok (.request r, ⟨{ cl with counter := cl.counter + cbs.length }, es, hs⟩,
+            (callbackPackets cl.counter cbs).map Item.callback) := by
+        simp only [emit, h1, Except.map]
+      obtain ⟨msgs', m1, rfl⟩ := emitAll_cons_inv c _ _ _ evs _ _ msgs he h
+      rcases List.mem_cons.1 hm with rfl | hm
+      · exact callbackRequest_wireOk c L wf wcfg cl hcl wc wcl cbs rand (hne cbs rand (by simp)) hev.1 hev.2 r _ h1
+      · exact ih { cl with counter := cl.counter + cbs.length } hcl (wellFormedClient_counter c cl wc _) ⟨wcl.ua, wcl.host⟩
+          hrest hne' msgs' m1 m hm
+
 end C07
